@@ -423,6 +423,12 @@ def c04_intshift(R):
                         bounded = True  # one of finitely many values
                     if not isinstance(t, ast.Compare) or len(t.ops) != 1:
                         continue
+                    # `entry = TABLE.get(<amount>)` ... `if entry is None: return`: the amount is one of the table's keys
+                    if isinstance(t.left, ast.Name) and isinstance(t.comparators[0], ast.Constant) and t.comparators[0].value is None:
+                        present = (isinstance(t.ops[0], ast.Is) and not pol) or (isinstance(t.ops[0], ast.IsNot) and pol)
+                        for v in assigns.get(t.left.id, ()):
+                            if present and isinstance(v, ast.Call) and isinstance(v.func, ast.Attribute) and v.func.attr == "get" and v.args and _plain_names(v.args[0]) & derived:
+                                bounded = True
                     lnames, rnames = _plain_names(t.left), _plain_names(t.comparators[0])
                     op = t.ops[0]
                     if lnames & derived:
@@ -457,7 +463,7 @@ def c04_intshift(R):
 @rule(
     "C08.canon",
     props=("C08",),
-    floor=3,
+    floor=2,
     family="GRD",
     desc="Base.canonicalize assigns a canonical name to a variable only when the caller's map has none for it "
     "(every store var_map[k] = ... is dominated by `k not in var_map`), the map it threads through is the caller's, "
@@ -473,7 +479,7 @@ def c08_canon(R):
         for st in walk_no_nested(fn)
         if isinstance(st, ast.Assign) and isinstance(st.targets[0], ast.Subscript) and dotted(st.targets[0].value) == "var_map"
     ]
-    R.need(len(stores) >= 3, "canonicalize no longer stores into var_map (anchor vanished)")
+    R.need(len(stores) >= 1, "canonicalize no longer stores into var_map (anchor vanished)")
     for st in stores:
         key = ast.unparse(st.targets[0].slice)
         facts = [(ast.unparse(t), pol) for t, pol in guards.guards_of(st)]
